@@ -84,7 +84,9 @@ def main(tier, seed):
         dom = T.domain(name)
         claims = T.claims(name)
         import metric_ref as _mr
-        signed_too = dom == "pos" and _mr.DOMAIN.get(name) == "real"
+        # only canberra: its code takes |x| + |y| in the denominator, so it is the Canberra metric on all of R^n (clark and cosine
+        # divide by x + y / by norms of shifted vectors and are not finite for x = -y: they stay on their non-negative class)
+        signed_too = name == "canberra" and dom == "pos" and _mr.DOMAIN.get(name) == "real"
 
         def f(a, b):
             return float(fn(a, b))
